@@ -348,6 +348,11 @@ class load(DataStreamProcessor):
             if self.strip:
                 it = self.stripper(it)
             yield it
+        if isinstance(self.load_source, tuple):
+            # run the resources iterator to its end: whatever it does after its last
+            # resource (e.g. the tail of an inner flow) happens - or fails - as part of this flow
+            for _ in self.iterators:
+                pass
 
     @staticmethod
     def rename_duplicate_headers(duplicate_headers, case_sensitive=True, deduplicate_format=' (%s)'):
